@@ -58,6 +58,7 @@ OPS = [
     ("protocol", {"steps": 2}),
     ("protocol_time_course", {"points": [0.25, 1.0], "relative": False}),
     ("protocol_time_course", {"points": [0.25, 1.0], "relative": True}),
+    ("protocol_time_course", {"points": [0.25, 1.0], "relative": True, "shared": True}),  # the caller's own array object, used again and again
     ("update_parameter", {"name": "k", "factor": 2.0}),
     ("update_parameters", {"c_add": 1.0}),
     ("scale_parameter", {"name": "k", "factor": 0.5}),
@@ -161,6 +162,9 @@ class Reference:
         return None
 
 
+_SHARED_GRIDS = {}  # id(simulator) -> the caller's time-point array of that history
+
+
 def apply_real(sim, op, T):
     """Apply one operation to the real Simulator; returns ('ok'|'refused'|'raised', info)."""
     import mxlpy
@@ -179,8 +183,18 @@ def apply_real(sim, op, T):
             sim.simulate_protocol(mxlpy.make_protocol(PROTOCOL), time_points_per_step=a["steps"])
         elif name == "protocol_time_course":
             pts = a["points"] if a["relative"] else [T + r for r in a["points"]]
-            sim.simulate_protocol_time_course(mxlpy.make_protocol(PROTOCOL), np.array(pts, dtype=float),
-                                              time_points_as_relative=a["relative"])
+            arr = np.array(pts, dtype=float)
+            if a.get("shared"):
+                # one array object per simulator, handed in every time: it belongs to the caller
+                arr = _SHARED_GRIDS.get(id(sim))
+                if arr is None:
+                    arr = np.array(pts, dtype=float)
+                    _SHARED_GRIDS[id(sim)] = arr
+                if arr.tolist() != [float(p) for p in pts]:
+                    return "raised", f"CallerArrayModified: the caller's time-point array was changed in place by an earlier call: {arr.tolist()} instead of {pts}"
+            sim.simulate_protocol_time_course(mxlpy.make_protocol(PROTOCOL), arr, time_points_as_relative=a["relative"])
+            if a.get("shared") and arr.tolist() != [float(p) for p in pts]:
+                return "raised", f"CallerArrayModified: the caller's time-point array was changed in place: {arr.tolist()} instead of {pts}"
         elif name == "update_parameter":
             sim.update_parameter(a["name"], sim.model.get_parameter_values()[a["name"]] * a["factor"])
         elif name == "update_parameters":
@@ -365,6 +379,7 @@ def run_history(variant, hist):
     from mxlpy import Simulator
 
     sim = Simulator(make_model(variant))
+    _SHARED_GRIDS.pop(id(sim), None)
     ref = Reference(variant)
     produced = 0
     digest = []
